@@ -15,13 +15,14 @@ var props = map[string]propSpec{
 	"C05": {Level: "model_checking", Harnesses: []harnessSpec{
 		{Name: "fwd", Quick: 300, Thorough: 600, Args: []string{"-prop", "C05"}},
 		{Name: "agentw", Quick: 300, Thorough: 600, Args: []string{"-prop", "C05"}},
+		{Name: "bboxagent", NoRewrite: true, Quick: 300, Thorough: 600, Args: []string{"-prop", "C05"}},
 	}, Assume: []string{
 		"whole agent (harness agentw): the same lock-step through main() with a scripted backend whose response body produces chunk i only after the scripted proxy has seen chunk i-1 in the upload: plain, websocket-shim script injection, sessions, banner and all of them together x HTML / JSON / event-stream x chunk patterns with and without <head>, around the 1 KiB peek of the injection; httputil.ReverseProxy's periodic flush is real-time and plays no part (its writes reach the forwarder at once)",
 		"'within bounded time' is decided as logical progress: the backend-side handler continues only after the proxy endpoint has read every payload byte flushed so far; any stage that holds bytes back deadlocks under every schedule",
 	}},
 	"C06": {Level: "fault_enumeration", Harnesses: []harnessSpec{
 		{Name: "fwd", Quick: 400, Thorough: 1800, Args: []string{"-prop", "C06"}},
-		{Name: "bboxagent", NoRewrite: true, Quick: 300, Thorough: 900},
+		{Name: "bboxagent", NoRewrite: true, Quick: 300, Thorough: 900, Args: []string{"-prop", "C06"}},
 	}, Assume: []string{
 		"the proxy endpoint is a scripted http.RoundTripper; 'lingering' models net/http's documented freedom to keep reading the request body after RoundTrip returns (one more Read, as the transport's write loop does)",
 		"fault plans: up to 3 attempts, kinds {5xx, connection error}, read positions {0,1,17,4095,4096,4097,all}",
